@@ -1,6 +1,7 @@
 package smtpd
 
 import (
+	"bytes"
 	"fmt"
 	"strconv"
 	"strings"
@@ -298,7 +299,7 @@ func GenDialogue(g *vh.Gen, c Cfg, pool []string, o Opts) []byte {
 		line(mail)
 		garbage()
 		nr := g.Intn(5)
-		if g.Chance(0.03) {
+		if g.Chance(0.03) && (ntx <= 8 || t == 0) { // (in a long session only the first transaction: the model's cost grows faster than the stream)
 			nr = g.Pick2(8, 9, 16, 17, 33, 64, 129, 200, 201, 257) // recipient lists across the growth steps of a slice and the default limit
 		}
 		var tos []string
@@ -419,4 +420,46 @@ func GenErrorStorm(g *vh.Gen, c *Cfg, pool []string, k int) []byte {
 	line("NOOP")
 	line("QUIT")
 	return []byte(b.String())
+}
+
+// LockStepField renders a stream as a connection field in which the client is NOT pipelining at some points: it
+// hands the bytes after such a point over only when the server has read everything before it ("&" boundaries, see
+// ParseNet). mode 0: after every DATA command (the classic client: wait for the 354, then send the block AND whatever
+// it has queued behind it); 1: after every line that is not inside a block; 2: after a random half of the lines.
+func LockStepField(g *vh.Gen, stream []byte, mode int) string {
+	var parts []string
+	var cur []byte
+	inData := false
+	flush := func() {
+		if len(cur) > 0 {
+			parts = append(parts, vh.H(cur))
+			cur = nil
+		}
+	}
+	for _, l := range bytes.SplitAfter(stream, []byte("\n")) {
+		if len(l) == 0 {
+			continue
+		}
+		cur = append(cur, l...)
+		t := strings.ToUpper(strings.TrimRight(string(l), "\r\n"))
+		if inData {
+			if t == "." {
+				inData = false
+			}
+			continue
+		}
+		isData := t == "DATA"
+		if isData {
+			inData = true
+		}
+		switch {
+		case mode == 0 && isData, mode == 1, mode == 2 && g.Chance(0.5):
+			flush()
+		}
+	}
+	flush()
+	if len(parts) == 0 {
+		return "-"
+	}
+	return strings.Join(parts, "&")
 }
